@@ -80,7 +80,23 @@ CgroupPath CgroupPath::getChild(const std::string& path) const {
 
 std::vector<CgroupPath> CgroupPath::resolveWildcard() const {
   std::vector<CgroupPath> ret;
-  auto glob = Fs::glob(absolutePath(), /* dir_only */ true);
+  // Only the relative part is a pattern. The cgroup fs root is a plain path:
+  // whatever glob(3) would interpret in it has to be escaped, or a root such
+  // as "/x/cg[2]" matches "/x/cg2" and never itself.
+  static const std::string kSpecial = "\\*?[]{}";
+  std::string pattern;
+  pattern.reserve(absolute_cache_.size());
+  for (char c : cgroup_fs_) {
+    if (kSpecial.find(c) != std::string::npos) {
+      pattern.push_back('\\');
+    }
+    pattern.push_back(c);
+  }
+  if (relative_cache_.size()) {
+    pattern += '/';
+    pattern += relative_cache_;
+  }
+  auto glob = Fs::glob(pattern, /* dir_only */ true);
   // TODO(dschatzberg): Report error
   if (!glob) {
     return ret;
